@@ -4,7 +4,7 @@ use derive_more::Display;
 use simplesl_macros::var_type;
 use std::{ops::Deref, sync::Arc};
 
-#[derive(Display, PartialEq)]
+#[derive(Display)]
 #[display("{}", self.string(0))]
 pub struct Array {
     pub(crate) element_type: Type,
@@ -56,6 +56,14 @@ impl Array {
                 .collect::<Box<[_]>>()
                 .join(", ")
         )
+    }
+}
+
+/// Arrays are equal when their elements are; the stored element type only records
+/// how the array was produced ([0; 0], [] and [1][1:] are all the empty array).
+impl PartialEq for Array {
+    fn eq(&self, other: &Self) -> bool {
+        self.elements == other.elements
     }
 }
 
